@@ -489,7 +489,7 @@ func runC11(c *Ctx) {
 		var m1Rets, nextRets []ssa.Instruction
 		for _, r := range returnsOf(fn) {
 			rv := returnValues(r)
-			if isConst(rv[0], "nil") {
+			if isConst(rv[0], "nil") && isConst(rv[1], "-1") {
 				continue // the (nil, -1) guard above
 			}
 			if ph, isP := rv[1].(*ssa.Phi); isP {
@@ -515,6 +515,17 @@ func runC11(c *Ctx) {
 				nextRets = append(nextRets, r)
 			}
 		}
+		if okLast && (len(m1Rets) > 0 || len(nextRets) > 0) {
+			// besides the φ(-1, next) return there are further returns: each must obey the same condition
+			guardPass := edgesWhere(fn, tb, "le("+offI+",p[1])", nil, true)
+			guardFail := edgesWhere(fn, tb, "le("+offI+",p[1])", nil, false)
+			cutFor := func(side map[Edge]bool) func(Edge) bool {
+				return func(e Edge) bool { return guardPass[e] || side[e] && !guardFail[e] }
+			}
+			b1, _ := reach(entryPos(fn), isAnyInstr(m1Rets), nil, cutFor(reached))
+			b2, _ := reach(entryPos(fn), isAnyInstr(nextRets), nil, cutFor(notReached))
+			okLast = b1 == nil && b2 == nil
+		}
 		if !okLast && len(m1Rets) > 0 && len(nextRets) > 0 {
 			// past the guard (offset < b.offset side), -1 only behind `next >= b.offset`, the real offset only behind its negation
 			guardPass := edgesWhere(fn, tb, "le("+offI+",p[1])", nil, true)
@@ -529,6 +540,66 @@ func runC11(c *Ctx) {
 			okLast = b1 == nil && b2 == nil
 		}
 		L.Check(okLast, "R-C11-ITER", "Buffer.Slice#next", "next = start+sz, or −1 when that reaches the write offset", "Slice does not return next = −1 exactly when the next offset reaches b.offset", fn.Pos())
+	})
+
+	// ---- R-C11-GROWFIRST: raw writes into a Buffer's storage
+	c.Group("R-C11-GROWFIRST", "Buffer.buf#raw-writers", func() {
+		// who writes bytes into a Buffer's backing array other than through the Grow-guarded API: only
+		// Write (behind Grow, checked above) and the sorter writing back INTO THE RANGE IT SORTS of the
+		// buffer being sorted (s.b). Writing into another buffer's array (the sorter's scratch s.tmp, a
+		// freshly obtained b.buf[b.offset:]) without Grow overruns it as soon as the data is larger than
+		// the array happens to be.
+		type site struct{ fn, base string }
+		allowed := map[site]string{
+			{"z.Buffer.Write", "p[0]"}:                        "behind Grow(len(p)) (R-C11-GROWFIRST)",
+			{"z.sortHelper.sortSmall", "fld[b](p[0])"}:        "copy-back over [start,end) of the sorted buffer",
+			{"z.sortHelper.merge", "fld[b](p[0])"}:            "merge output inside [start,end) of the sorted buffer",
+			{"z.sortHelper.merge$1", "fld[b](load(fv[0:s]))"}: "copyLeft closure: merge output",
+			{"z.sortHelper.merge$2", "fld[b](load(fv[0:s]))"}: "copyRight closure: merge output",
+			{"z.sortHelper.merge$1", "fld[b](fv[0:s])"}:       "copyLeft closure: merge output",
+			{"z.sortHelper.merge$2", "fld[b](fv[0:s])"}:       "copyRight closure: merge output",
+		}
+		n := 0
+		var bad []string
+		var pos token.Pos
+		for _, fn := range P.SrcFuncs {
+			if fn.Pkg != P.Pkgs["z"] {
+				continue
+			}
+			tb := newTB(fn)
+			check := func(dst ssa.Value, in ssa.Instruction) {
+				t := tb.T(dst)
+				env := Env{}
+				f := Find("fld[buf](?b)", t, env)
+				if f == nil || recvNameOfTerm(env["b"]) != "Buffer" {
+					return
+				}
+				n++
+				base := env["b"].String()
+				if _, ok := allowed[site{fname(fn), base}]; ok {
+					return
+				}
+				// the sorter closures may capture s differently after refactoring: accept any base that is the helper's b
+				if strings.HasPrefix(fname(fn), "z.sortHelper.") && strings.HasPrefix(base, "fld[b](") {
+					return
+				}
+				bad = append(bad, fname(fn)+" writes into "+t.String())
+				pos = in.Pos()
+			}
+			eachInstr(fn, func(in ssa.Instruction) {
+				switch x := in.(type) {
+				case *ssa.Call:
+					if b, ok := x.Call.Value.(*ssa.Builtin); ok && b.Name() == "copy" {
+						check(x.Call.Args[0], in)
+					}
+				case *ssa.Store:
+					if ia, ok := x.Addr.(*ssa.IndexAddr); ok {
+						check(ia.X, in)
+					}
+				}
+			})
+		}
+		L.Check(len(bad) == 0 && n >= 5, "R-C11-GROWFIRST", "Buffer.buf#raw-writers", fmt.Sprintf("%d raw writes into a Buffer's array: Write (behind Grow) and the sorter's write-back into the sorted buffer", n), "raw write into a Buffer's backing array outside the Grow-guarded API: "+strings.Join(bad, "; ")+" - nothing makes the array large enough for it", pos)
 	})
 
 	// ---- R-C11-MAXSZ
@@ -879,4 +950,12 @@ func bufferSizeInvRule(c *Ctx, ruleID string) {
 			L.Undecided(ruleID, "Buffer literals", "fewer than three Buffer literals found", 0)
 		}
 	})
+}
+
+// recvNameOfTerm: named type (pointer stripped) of the value behind a term, "" if unknown.
+func recvNameOfTerm(t *Term) string {
+	if t == nil || t.V == nil {
+		return ""
+	}
+	return recvName(t.V.Type())
 }
